@@ -54,4 +54,8 @@ def run(tier, seed):
 
 
 def replay(path):
+    import json
+    if json.load(open(path)).get("kind") == "proxydrv":
+        from props.proxycommon import replay_file as proxy_replay
+        return proxy_replay("C01", path)
     return replay_file("C01", path)
